@@ -18,7 +18,8 @@ def run(report, tier):
     hs = [
         Harness(name="names", module="harness.c04", body="body_names", sig="sel: int", n_sel=H.N_NAMES,
                 claim="for every installed EvtGen name / PDG name / unknown label: conjugate has the negated PDG id "
-                      "(same name when self-conjugate), twice is the identity, unknown labels are wrapped unchanged",
+                      "(same name when self-conjugate), twice is the identity, unknown labels are wrapped unchanged under both namings - also the wrapped label "
+                      "itself (wrapped again, never unwrapped, whatever was asked before), same answer when asked again",
                 bounds=f"all {H.N_EVTGEN} EvtGen names, all {H.N_PDG} PDG names, {len(H.UNKNOWN_LABELS)} unknown labels",
                 symbolic="none (names are dictionary keys; the solver drives and closes the enumeration)",
                 shards=16, timeout=600, concrete_body=True, sample={"name": "anti-B_s0", "conjugate": "B_s0"}),
